@@ -7,5 +7,8 @@ git diff --quiet || { echo "/repo has uncommitted changes"; exit 2; }
 git apply /verif/seeded/$ID/patch.diff || { echo "patch does not apply"; exit 2; }
 cd /verif && ./check $PROP $TIER > /tmp/seeded-$ID-$PROP.log 2>&1; RC=$?
 git -C /repo checkout -- .
+# the binary under sim/target is now the one built against the *patched* tree: rebuild it
+# from the clean tree at once, so that nothing started by hand afterwards uses it
+(cd /verif/sim && CARGO_NET_OFFLINE=true cargo build --release --offline >/dev/null 2>&1)
 echo "seeded=$ID property=$PROP tier=$TIER exit=$RC"
 grep -E "^VIOLATION|^  oracle|KNOWN-FINDING|gwsim batch" /tmp/seeded-$ID-$PROP.log | cut -c1-400
